@@ -18,7 +18,7 @@ theorem step_inv (s : S) (e : Ev) (h : Inv s) : Inv (step s e) := by
   obtain ⟨h1, h2, h3, h4⟩ := h
   simp only at h1 h2 h3 h4
   cases e with
-  | pkt src trigger now pto3 tok tok2 =>
+  | pkt src trigger now ptoNew ptoOld tok tok2 =>
     simp only [step]
     by_cases c1 : src ≠ addr ∧ (!mm) = true
     · rw [if_pos c1]; exact ⟨h1, h2, h3, h4⟩
@@ -85,7 +85,7 @@ theorem unvalidated_has_fallback (a : Nat) (m : Bool) (evs : List Ev) :
 /-- with migration disabled the initial state is a fixed point of every event -/
 theorem step_init_false (a : Nat) (e : Ev) : step (init a false) e = init a false := by
   cases e with
-  | pkt src trigger now pto3 tok tok2 =>
+  | pkt src trigger now ptoNew ptoOld tok tok2 =>
     simp only [step, init]
     by_cases c : src = a <;> simp [c]
   | response src tok =>
@@ -104,8 +104,8 @@ theorem no_migration_path (a : Nat) (evs : List Ev) :
     (run (init a false) evs).path.addr = a ∧ (run (init a false) evs).path.validated = true := by
   rw [run_init_false]; exact ⟨rfl, rfl⟩
 
-theorem pkt_no_trigger_keeps_path (s : S) (src now pto3 tok tok2 : Nat) :
-    (step s (.pkt src false now pto3 tok tok2)).path = s.path := by
+theorem pkt_no_trigger_keeps_path (s : S) (src now ptoNew ptoOld tok tok2 : Nat) :
+    (step s (.pkt src false now ptoNew ptoOld tok tok2)).path = s.path := by
   simp only [step]
   by_cases c1 : src ≠ s.path.addr ∧ (!s.mayMigrate) = true
   · rw [if_pos c1]
@@ -113,9 +113,9 @@ theorem pkt_no_trigger_keeps_path (s : S) (src now pto3 tok tok2 : Nat) :
     have c2 : ¬ (src ≠ s.path.addr ∧ false = true) := by simp
     rw [if_neg c2]
 
-theorem migrate_result (s : S) (src now pto3 tok tok2 : Nat) (hm : s.mayMigrate = true) (hs : src ≠ s.path.addr) :
-    let s' := step s (.pkt src true now pto3 tok tok2)
-    s'.path.addr = src ∧ s'.path.validated = false ∧ s'.path.challenge = some tok ∧ s'.timer = some (now + pto3) := by
+theorem migrate_result (s : S) (src now ptoNew ptoOld tok tok2 : Nat) (hm : s.mayMigrate = true) (hs : src ≠ s.path.addr) :
+    let s' := step s (.pkt src true now ptoNew ptoOld tok tok2)
+    s'.path.addr = src ∧ s'.path.validated = false ∧ s'.path.challenge = some tok ∧ s'.timer = some (now + validationPeriod ptoNew ptoOld) := by
   simp [step, migrate, hm, hs]
 
 theorem validated_cause (s : S) (e : Ev) (hi : Inv s)
@@ -127,7 +127,7 @@ theorem validated_cause (s : S) (e : Ev) (hi : Inv s)
   simp only at hu hp
   subst hu hp
   cases e with
-  | pkt src trigger now pto3 tok tok2 =>
+  | pkt src trigger now ptoNew ptoOld tok tok2 =>
     exfalso
     simp only [step] at hv
     by_cases c1 : src ≠ addr ∧ (!mm) = true
@@ -171,13 +171,13 @@ theorem timeout_reverts (s : S) (hi : Inv s) (hu : s.path.validated = false) (t 
   exact ⟨rfl, hpv, rfl⟩
 
 theorem timer_kept (s : S) (e : Ev) (t : Nat) (ht : s.timer = some t)
-    (hne : ∀ src now pto3 tok tok2, e = .pkt src true now pto3 tok tok2 → src = s.path.addr ∨ s.mayMigrate = false) :
+    (hne : ∀ src now ptoNew ptoOld tok tok2, e = .pkt src true now ptoNew ptoOld tok tok2 → src = s.path.addr ∨ s.mayMigrate = false) :
     (step s e).timer = some t ∨ (step s e).timer = none := by
   obtain ⟨⟨addr, v, ch, pd⟩, prev, timer, mm⟩ := s
   simp only at ht hne
   subst ht
   cases e with
-  | pkt src trigger now pto3 tok tok2 =>
+  | pkt src trigger now ptoNew ptoOld tok tok2 =>
     left
     simp only [step]
     by_cases c1 : src ≠ addr ∧ (!mm) = true
@@ -187,7 +187,7 @@ theorem timer_kept (s : S) (e : Ev) (t : Nat) (ht : s.timer = some t)
       · exfalso
         obtain ⟨h1, h2⟩ := c2
         subst h2
-        rcases hne src now pto3 tok tok2 rfl with h | h
+        rcases hne src now ptoNew ptoOld tok tok2 rfl with h | h
         · exact h1 h
         · subst h; exact c1 ⟨h1, rfl⟩
       · rw [if_neg c2]
@@ -204,5 +204,99 @@ theorem timer_kept (s : S) (e : Ev) (t : Nat) (ht : s.timer = some t)
     by_cases c : t ≤ now
     · rw [if_pos c]; right; rfl
     · rw [if_neg c]; left; rfl
+
+/-- the factor regenerated from `migrate` is the THREE of the property -/
+theorem validationPeriod_eq (a b : Nat) : validationPeriod a b = 3 * max a b := by
+  simp [validationPeriod, Gen.pathValidationFactor]
+
+theorem migrate_deadline_3pto (s : S) (src now ptoNew ptoOld tok tok2 : Nat) (hm : s.mayMigrate = true) (hs : src ≠ s.path.addr) :
+    let s' := step s (.pkt src true now ptoNew ptoOld tok tok2)
+    s'.path.addr = src ∧ s'.path.validated = false ∧ s'.path.challenge = some tok ∧
+      s'.timer = some (now + 3 * max ptoNew ptoOld) := by
+  have h := migrate_result s src now ptoNew ptoOld tok tok2 hm hs
+  rw [validationPeriod_eq] at h
+  exact h
+
+/-- events other than a migration trigger -/
+def NotTrigger : Ev → Prop
+  | .pkt _ true _ _ _ _ _ => False
+  | _ => True
+
+theorem timer_none_kept (s : S) (e : Ev) (hn : NotTrigger e) (ht : s.timer = none) : (step s e).timer = none := by
+  obtain ⟨⟨addr, v, ch, pd⟩, prev, timer, mm⟩ := s
+  simp only at ht
+  subst ht
+  cases e with
+  | pkt src trigger now ptoNew ptoOld tok tok2 =>
+    cases trigger with
+    | true => exact absurd hn (by simp [NotTrigger])
+    | false =>
+      simp only [step]
+      by_cases c1 : src ≠ addr ∧ (!mm) = true
+      · rw [if_pos c1]
+      · rw [if_neg c1]
+        have c2 : ¬ (src ≠ addr ∧ false = true) := by simp
+        rw [if_neg c2]
+  | response src tok =>
+    simp only [step]
+    by_cases c1 : src ≠ addr ∧ (!mm) = true
+    · rw [if_pos c1]
+    · rw [if_neg c1]
+      by_cases c2 : ch = some tok ∧ src = addr
+      · rw [if_pos c2]
+      · rw [if_neg c2]
+  | timeout now => simp [step]
+
+theorem run_deadline_kept (evs : List Ev) : ∀ (s : S) (d : Nat), Inv s → (s.timer = some d ∨ s.timer = none) →
+    (∀ e ∈ evs, NotTrigger e) → Inv (run s evs) ∧ ((run s evs).timer = some d ∨ (run s evs).timer = none) := by
+  induction evs with
+  | nil => intro s d hi ht _; exact ⟨hi, ht⟩
+  | cons e rest ih =>
+    intro s d hi ht hn
+    have he : NotTrigger e := hn e (by simp)
+    have hr : ∀ x ∈ rest, NotTrigger x := fun x hx => hn x (by simp [hx])
+    have hi' := step_inv s e hi
+    have ht' : (step s e).timer = some d ∨ (step s e).timer = none := by
+      rcases ht with h | h
+      · refine timer_kept s e d h ?_
+        intro src now ptoNew ptoOld tok tok2 heq
+        subst heq
+        exact absurd he (by simp [NotTrigger])
+      · right; exact timer_none_kept s e he h
+    exact ih (step s e) d hi' ht' hr
+
+/-- servicing the timer at or after the deadline leaves a validated path, whatever happened before -/
+theorem timeout_validated (s : S) (hi : Inv s) (d t : Nat) (ht : s.timer = some d ∨ s.timer = none) (hd : d ≤ t) :
+    (step s (.timeout t)).path.validated = true := by
+  obtain ⟨h1, h2, h3, h4⟩ := hi
+  obtain ⟨⟨addr, v, ch, pd⟩, prev, timer, mm⟩ := s
+  simp only at h1 h2 h3 h4 ht
+  rcases ht with h | h
+  · subst h
+    simp only [step]
+    rw [if_pos hd]
+    cases prev with
+    | some p => exact h4 p rfl
+    | none =>
+      cases v with
+      | true => rfl
+      | false => have := (h1 rfl).1; simp at this
+  · subst h
+    simp only [step]
+    cases v with
+    | true => rfl
+    | false => have := (h1 rfl).2; simp at this
+
+/-- C15 "returns within three probe timeouts": after a migration at `now`, over every continuation without a
+    further migration, servicing the timer at any instant from `now + 3·max(PTO new, PTO old)` on finds the
+    connection on a validated path (the new one if a matching response arrived, else the previous one) -/
+theorem held_at_most_3pto (s : S) (hi : Inv s) (src now ptoNew ptoOld tok tok2 : Nat) (hm : s.mayMigrate = true)
+    (hs : src ≠ s.path.addr) (evs : List Ev) (hn : ∀ e ∈ evs, NotTrigger e) (t : Nat)
+    (ht : now + 3 * max ptoNew ptoOld ≤ t) :
+    (step (run (step s (.pkt src true now ptoNew ptoOld tok tok2)) evs) (.timeout t)).path.validated = true := by
+  have h := migrate_deadline_3pto s src now ptoNew ptoOld tok tok2 hm hs
+  have hi1 := step_inv s (.pkt src true now ptoNew ptoOld tok tok2) hi
+  have hk := run_deadline_kept evs _ (now + 3 * max ptoNew ptoOld) hi1 (Or.inl h.2.2.2) hn
+  exact timeout_validated _ hk.1 _ t hk.2 ht
 
 end QM.PathM
